@@ -21,6 +21,12 @@ package c02
 // Every program carries its expected output, computed here from the reference semantics: first
 // match in source order, labels evaluated in order until the match, loose `==` for switch, strict
 // `===` for match. Harness-only (labels with effects, strings, floats and null are outside Spec.Ctl).
+//
+// Label comparison (fix C02-switch-loose-compare): a switch label matches iff `cond == label`, the
+// interpreter's ONE comparison rule (data.LooseCompare, shared by ==, !=, <, <=> … since e39f8c4).
+// looseEq below is an independent Go statement of that rule on scalars, arrays and objects; the
+// "pairs" sub-stream runs every ordered pair of a value alphabet covering every kind through a switch
+// AND through `==` in the same program and requires both to agree with each other and with looseEq.
 
 import (
 	"fmt"
@@ -31,7 +37,7 @@ import (
 
 // a PHP scalar
 type pv struct {
-	k string // int | str | float | null | bool
+	k string // int | str | float | null | bool | arr (i = length, s = identity) | obj (s = identity)
 	i int64
 	s string
 	f float64
@@ -45,7 +51,8 @@ func (v pv) num() (float64, bool) {
 	case "float":
 		return v.f, true
 	case "str":
-		if f, err := strconv.ParseFloat(strings.TrimSpace(v.s), 64); err == nil && v.s != "" {
+		// a numeric string is what strconv parses (no surrounding blanks, no trailing text)
+		if f, err := strconv.ParseFloat(v.s, 64); err == nil {
 			return f, true
 		}
 	}
@@ -59,9 +66,16 @@ func (v pv) truthy() bool {
 	case "float":
 		return v.f != 0
 	case "str":
-		return v.s != "" && v.s != "0"
+		// the interpreter's truthiness of a string (StringValue.AsBool, also what `if ('0')` uses and
+		// what Spec.Ctl.truthy states): non-empty. PHP also counts '0' as false; that is a property of
+		// truthiness, not of the switch — `false == '0'` and `switch (false) { case '0': }` agree.
+		return v.s != ""
 	case "bool":
 		return v.b
+	case "arr":
+		return v.i != 0
+	case "obj":
+		return true
 	}
 	return false
 }
@@ -82,8 +96,20 @@ func (v pv) str() string {
 	return ""
 }
 
-// looseEq: PHP 8 `==` on scalars
+// looseEq: `==` as the interpreter defines it (data.LooseCompare(a, b) == 0, plus "the same value
+// is equal to itself"), which is PHP 8's loose comparison table on the scalar pairs of the streams:
+//   - null or bool on either side: both sides as booleans; null against a string: null is ""
+//   - int / float: by numeric value (1.5 != 1, 1.0 == 1)
+//   - string / string: the same bytes ('1' != '1.0': PHP compares two numeric strings as numbers;
+//     origami's `==` does not — a property of `==` (C03), the switch has to agree with it)
+//   - number / string: numeric string → by value, otherwise the number's text against the string
+//   - arrays and objects: against null / bool by truthiness, the same object is equal to itself,
+//     everything else is unordered = not equal (PHP compares two arrays element-wise: again `==`, C03;
+//     the pairs sub-stream asks only for switch = `==` there, see pairCase)
 func looseEq(a, b pv) bool {
+	if (a.k == "obj" || a.k == "arr") && a.k == b.k {
+		return a.k == "obj" && a.s == b.s
+	}
 	if a.k == "bool" || b.k == "bool" {
 		return a.truthy() == b.truthy()
 	}
@@ -100,14 +126,14 @@ func looseEq(a, b pv) bool {
 		}
 		return !o.truthy()
 	}
-	an, aok := a.num()
-	bn, bok := b.num()
+	if a.k == "obj" || a.k == "arr" || b.k == "obj" || b.k == "arr" {
+		return false
+	}
 	if a.k == "str" && b.k == "str" {
-		if aok && bok {
-			return an == bn
-		}
 		return a.s == b.s
 	}
+	an, aok := a.num()
+	bn, bok := b.num()
 	if a.k != "str" && b.k != "str" {
 		return an == bn
 	}
@@ -131,6 +157,8 @@ func strictEq(a, b pv) bool {
 		return a.s == b.s
 	case "bool":
 		return a.b == b.b
+	case "arr", "obj":
+		return a.s == b.s
 	}
 	return true
 }
@@ -182,16 +210,70 @@ var clauseConds = []ccond{
 	{"str", "'a'", pv{k: "str", s: "a"}},
 	{"float", "1.0", pv{k: "float", f: 1}},
 	{"null", "null", pv{k: "null"}},
+	{"bool", "true", pv{k: "bool", b: true}},
+	{"bool", "false", pv{k: "bool", b: false}},
+	{"frac", "1.5", pv{k: "float", f: 1.5}},
 	{"int", "1", pv{k: "int", i: 1}},
 	{"int", "2", pv{k: "int", i: 2}},
 }
 
-// conditions whose loose comparison with an int / string label origami's switch gets wrong on the
-// pinned tree (SwitchStatement.isMatch is not `==`): one program per condition, fixed signature
-var looseConds = []ccond{
-	{"bool", "true", pv{k: "bool", b: true}},
+// the value alphabet of the pairs sub-stream: every kind a label or a condition can have
+var pairVals = []ccond{
+	{"null", "null", pv{k: "null"}},
 	{"bool", "false", pv{k: "bool", b: false}},
+	{"bool", "true", pv{k: "bool", b: true}},
+	{"int", "0", pv{k: "int", i: 0}},
+	{"int", "1", pv{k: "int", i: 1}},
+	{"int", "2", pv{k: "int", i: 2}},
+	{"int", "-1", pv{k: "int", i: -1}},
+	{"float", "0.0", pv{k: "float", f: 0}},
+	{"float", "1.0", pv{k: "float", f: 1}},
 	{"frac", "1.5", pv{k: "float", f: 1.5}},
+	{"str", "''", pv{k: "str", s: ""}},
+	{"numstr", "'0'", pv{k: "str", s: "0"}},
+	{"numstr", "'1'", pv{k: "str", s: "1"}},
+	{"numstr", "'1.0'", pv{k: "str", s: "1.0"}},
+	{"numstr", "'1.5'", pv{k: "str", s: "1.5"}},
+	{"numstr", "'01'", pv{k: "str", s: "01"}},
+	{"str", "'a'", pv{k: "str", s: "a"}},
+	{"str", "'1a'", pv{k: "str", s: "1a"}},
+	{"str", "'1 '", pv{k: "str", s: "1 "}},
+	{"arr", "[]", pv{k: "arr", i: 0, s: "[]"}},
+	{"arr", "[1]", pv{k: "arr", i: 1, s: "[1]"}},
+	{"arr", "[2]", pv{k: "arr", i: 1, s: "[2]"}},
+	{"obj", "$o", pv{k: "obj", s: "o"}},
+	{"obj", "$p", pv{k: "obj", s: "p"}},
+}
+
+// pairCase: one condition against every value of the alphabet, as a literal-label switch inside a
+// function (sw) and as `==` (eq). Per pair the program prints the switch outcome and whether `==`
+// says the same ('y' / 'n'); the expected segment is looseEq + 'y'. For two arrays / two different
+// objects `==` is the business of C03 (element-wise comparison is not implemented there): only the
+// agreement is printed and required.
+func pairCase(c ccond) clauseCase {
+	var b, out strings.Builder
+	b.WriteString("<?php\nclass K { public $a = 1; }\n" +
+		"function sw($a, $b) { switch ($a) { case $b: return 1; } return 0; }\n" +
+		"function eq($a, $b) { if ($a == $b) { return 1; } return 0; }\n" +
+		"function yn($a, $b) { if (sw($a, $b) == eq($a, $b)) { return 'y'; } return 'n'; }\n" +
+		"$o = new K(); $p = new K();\n$c = " + c.src + ";\n")
+	var kinds []string
+	for _, l := range pairVals {
+		kinds = append(kinds, c.kind)
+		open := (c.val.k == "arr" && l.val.k == "arr") || (c.val.k == "obj" && l.val.k == "obj" && c.val.s != l.val.s)
+		if open {
+			b.WriteString("echo yn($c, " + l.src + "), '|';\n")
+			out.WriteString("y|")
+			continue
+		}
+		b.WriteString("echo sw($c, " + l.src + "), yn($c, " + l.src + "), '|';\n")
+		if looseEq(c.val, l.val) {
+			out.WriteString("1y|")
+		} else {
+			out.WriteString("0y|")
+		}
+	}
+	return clauseCase{Name: "switch-pairs/" + c.src, Source: b.String(), Expect: out.String(), Conds: kinds, Class: "switch-pairs"}
 }
 
 type clauseCase struct {
@@ -441,13 +523,9 @@ func clauseCases() []clauseCase {
 		}
 		rec(nil)
 	}
-	// loose sub-stream: one condition per program, all bodies break, default present
-	for _, ls := range labelLists(clauseLabels, 2) {
-		for _, c := range looseConds {
-			cc := buildSwitch(ls, []bool{true, true}, true, []ccond{c}, "loose-"+c.src+"-")
-			cc.Class = "switch-loose"
-			cs = append(cs, cc)
-		}
+	// pairs sub-stream: every ordered pair of the value alphabet, switch against `==` against looseEq
+	for _, c := range pairVals {
+		cs = append(cs, pairCase(c))
 	}
 	return cs
 }
